@@ -25,6 +25,8 @@ type lcCase struct {
 	variant    string // happy | payfail | claimfail | feeunpaid | ...
 	drain      bool
 	name       string
+	// restartFirst: the drain begins with a restart (before any timer has had the chance to fire)
+	restartFirst bool
 }
 
 func (c lcCase) String() string {
@@ -172,6 +174,10 @@ func (h *lcHist) drain() {
 	p := h.p
 	h.victim.Fault = nil
 	p.chainObj().FailBroadcasts = 0
+	if h.c.restartFirst {
+		h.victim.Restart()
+		h.settle()
+	}
 	for round := 0; round < 6; round++ {
 		p.w.Advance(11 * time.Minute)
 		h.settle()
